@@ -44,7 +44,7 @@ class Drv:
     """One simdrv process; cmd() sends a JSON command and returns the JSON reply.
     If the process dies, returns {"op":"died","signal":n} and stays dead."""
 
-    def __init__(self, flavour="plain", cwd=None, env=None, exe="simdrv", timeout=20):
+    def __init__(self, flavour="plain", cwd=None, env=None, exe="simdrv", timeout=20, preexec=None):
         d = build(flavour)
         e = dict(os.environ)
         e.setdefault("OMP_NUM_THREADS", "1")
@@ -54,7 +54,7 @@ class Drv:
             e.update(env)
         self.p = subprocess.Popen([os.path.join(d, exe)], stdin=subprocess.PIPE, stdout=subprocess.PIPE,
                                   stderr=subprocess.PIPE if flavour != "plain" else subprocess.DEVNULL,
-                                  cwd=cwd, env=e, text=True, bufsize=1, pass_fds=(env or {}).get("_fds", ()))
+                                  cwd=cwd, env=e, text=True, bufsize=1, pass_fds=(env or {}).get("_fds", ()), preexec_fn=preexec)
         self.dead = None
         self.timeout = timeout
         self.flavour = flavour
@@ -468,7 +468,7 @@ def replay_parallel(ctx, behs, chunk_fn, on_result, what, n=16):
     return nbad
 
 
-def validate_trace(ctx, module, cfg, events, what, env=None, nexec=None, key="trace-rejected"):
+def validate_trace(ctx, module, cfg, events, what, env=None, nexec=None, key="trace-rejected", quiet=False):
     """Generic trace validation: write events, run TLC on the trace spec; accepted iff invariant NotAccepted is
     violated.  The trace spec prints <<"MAXL", l>> on every state."""
     for i, e in enumerate(events):
@@ -497,12 +497,15 @@ def validate_trace(ctx, module, cfg, events, what, env=None, nexec=None, key="tr
     if l == len(events) + 1:
         ctx.traces += nexec
         ctx.evaluations += len(events)
-        log("%s: %d recorded executions (%d events) accepted by %s" % (what, nexec, len(events), module))
+        if not quiet:
+            log("%s: %d recorded executions (%d events) accepted by %s" % (what, nexec, len(events), module))
         r.accepted = True
         return r
     r.accepted = False
     r.stuck_at = l
     bad = events[l - 1] if 0 < l <= len(events) else None
+    if key is None:
+        return None     # the caller localises and reports the rejection
     ctx.violation(key, "%s: event %d is not a step of the specification: %s" % (what, l, json.dumps(bad)[:800]),
                   {"events": events[max(0, l - 8):l + 1], "index": l})
     return r
